@@ -67,7 +67,12 @@ class HyperWorld(World):
         return {
             "params": p, "mesh": mesh, "rho": float(np.round(rng.uniform(0.5, 3), 3)), "clamped": bool(rng.random() < 0.7),
             "stress": ["gonzalez", "gonzalez", "quadrature", "quadrature_fixed", "quadrature_fixed", "pointwise"][int(rng.integers(6))],
-            "nPoints": [1, 1, 2, 3, 5][int(rng.integers(5))], "preload": float(np.round(rng.uniform(-0.15, 0.15), 4)),
+            "nPoints": [1, 1, 2, 3, 5][int(rng.integers(5))],
+            # non-conservative ingredients (no energy oracle then; the Newton system must still be the derivative of the
+            # residual): Kelvin-Voigt viscosity and an active fibre stress
+            "eta": float(np.round(rng.uniform(0.01, 1.0), 3)) if rng.random() < 0.2 else 0.0,
+            "active": [float(np.round(rng.uniform(0.5, 5.0), 3)), float(np.round(rng.uniform(0, np.pi), 3))] if rng.random() < 0.12 else None,
+            "preload": float(np.round(rng.uniform(-0.15, 0.15), 4)),
             "kick": float(np.round(rng.uniform(0, 0.5), 3)), "dt": float(np.round(10 ** rng.uniform(-2.3, -0.7), 5)),
             "nops": int(rng.integers(10, 31 if tier == "quick" else 61)), "faults": bool(faults),
         }
@@ -88,6 +93,8 @@ class HyperWorld(World):
             self.mat = make_law(cfg["params"])
             self.sim = Simulations.HyperElastic(meshlib.build(raw), self.mat, absTol=1e-7, relTol=1e-12, incTol=1e-13, maxIter=25)
             self.sim.rho = cfg["rho"]
+            if cfg.get("eta"):
+                self.mat.eta = cfg["eta"]
             self.pt = self.sim.problemType
             self.un = list(self.sim.Get_unknowns())
             # two boundary entities without a common node (faces of a 3D mesh may share an edge, and a node entered
@@ -108,12 +115,32 @@ class HyperWorld(World):
         # tolerance) and any fixed strain-path rule when dW/de is linear in the strain (Saint-Venant-Kirchhoff: a rule
         # with one point or more integrates a linear integrand exactly)
         self.conserving = cfg["stress"] in ("gonzalez", "quadrature") or (cfg["stress"] == "quadrature_fixed" and cfg["params"]["law"] == "SaintVenantKirchhoff")
+        if cfg.get("eta") or cfg.get("active"):
+            self.conserving = False
         try:
             self._reference_state_checks()
+            self._apply_active()
             self._preload_and_release()
         except BaseException:
             self.close()  # the seams are process-global: never leave them installed
             raise
+
+    def _apply_active(self):
+        """The active fibre stress is switched on after the reference-state checks (it is a load: the body no longer
+        rests at u = 0)."""
+        cfg = self.cfg
+        if not cfg.get("active"):
+            return
+        from EasyFEA import MatrixType
+        from EasyFEA.FEM._linalg import FeArray
+
+        tau, ang = cfg["active"]
+        with self.ctx.sut():
+            g = self.sim.mesh.groupElem
+            nPg = g.Get_gauss(MatrixType.rigi).nPg
+            T = np.tile(np.array([np.cos(ang), np.sin(ang), 0.0]), (g.Ne, nPg, 1))
+            self.mat.Set_active_stress_vec(FeArray.asfearray(T))
+            self.mat.active_stress = tau
 
     def close(self):
         self.solver.close()
